@@ -38,9 +38,9 @@ PARTIAL = {
                                   "the recorded finding, witness WM.C19.single_segment_misses_transposition / "
                                   "WM.C19.not_multi_eq_single",
     "WM.C19.fuzzy_query": "exact characterisation of FuzzyTerm hits on one segment, by lev instead of the documented "
-                          "osa and without documents whose matching term is the empty string (both recorded findings)",
+                          "osa (recorded finding; the empty-term omission was repaired in MultiTerm.matcher)",
     "WM.C19.fuzzy_query_index": "the union over the segments of a multi-segment index (global document numbers); same "
-                                "two deviations as fuzzy_query",
+                                "deviation as fuzzy_query",
     "WM.C19.multi_eq_single_partial": "carries the hypothesis that excludes the recorded defect (no lexicon term has "
                                       "osa <= d < lev); the full statement WM.C19.multi_eq_single_full is false of "
                                       "the code: WM.C19.not_multi_eq_single (witness lexicon [ba], word ab, d=1)",
